@@ -48,6 +48,12 @@ type stepJ struct {
 	// (Depth blocks replaced by N new ones; At = 0: no reorganisation)
 	From int `json:"from,omitempty"`
 	At   int `json:"at,omitempty"`
+	// poll steps: the Fail-th getblockhash request after the step fails once
+	// (a transient node failure while the poller fetches the new blocks);
+	// Stall: the first getblockheader request after the step takes that many
+	// milliseconds (the client's handler is busy while the poller goes on)
+	Fail  int `json:"fail,omitempty"`
+	Stall int `json:"stall,omitempty"`
 }
 
 // walletObs is what the wallet that was handed the notifications says.
@@ -391,6 +397,31 @@ func runCase(name string, init int, steps []stepJ) (caseJ, error) {
 				// notification will); the stream is still judged
 				before = 1 << 30
 			}
+		} else if st.Kind == "extend" || st.Kind == "reorg" {
+			if st.Fail > 0 {
+				base := srv.CallCount("getblockhash")
+				var once sync.Once
+				srv.Fail = func(method string, n int) bool {
+					hit := false
+					if method == "getblockhash" && n == base+st.Fail {
+						once.Do(func() { hit = true })
+					}
+					return hit
+				}
+			}
+			if st.Stall > 0 {
+				var once sync.Once
+				srv.Hook = func(method string, n int) {
+					if method == "getblockheader" {
+						once.Do(func() { time.Sleep(time.Duration(st.Stall) * time.Millisecond) })
+					}
+				}
+			}
+			d := st.Depth
+			if st.Kind == "extend" {
+				d = 0
+			}
+			_, added = r.c.ReorgTxs(d, r.blockTxs(st.Pay, st.N))
 		} else if st.Kind == "extend" {
 			_, added = r.c.ReorgTxs(0, r.blockTxs(st.Pay, st.N))
 		} else {
@@ -640,6 +671,9 @@ func main() {
 			{Name: "w-jump", Init: 3, Steps: []stepJ{{Kind: "extend", N: 3}, {Kind: "reorg", Depth: 4, N: 6}}},
 		}
 		ws = append(ws,
+			inJ{Name: "w-poll-last-fetch-of-tick-fails-once", Init: 4, Steps: []stepJ{{Kind: "extend", N: 2, Fail: 2}}},
+			inJ{Name: "w-poll-first-fetch-of-tick-fails-once", Init: 4, Steps: []stepJ{{Kind: "extend", N: 3, Fail: 1}, {Kind: "extend", N: 1}}},
+			inJ{Name: "w-burst-behind-busy-handler", Init: 4, Steps: []stepJ{{Kind: "reorg", Depth: 2, N: 140, Stall: 400}}},
 			inJ{Name: "w-rescan-no-reorg", Init: 8, Steps: []stepJ{{Kind: "rescan", From: 2}}},
 			inJ{Name: "w-rescan-reorg-depth1-at-fetched-block", Init: 8, Steps: []stepJ{{Kind: "rescan", From: 2, At: 4, Depth: 3, N: 4, Pay: []bool{true, false, false, true}}}},
 			inJ{Name: "w-rescan-reorg-depth3-below-fetched-blocks", Init: 9, Steps: []stepJ{{Kind: "rescan", From: 1, At: 6, Depth: 6, N: 8, Pay: []bool{false, true}}}},
